@@ -7,6 +7,7 @@
 //                                      "<tid> ev ret c r1 r2" per operation (same text as the Coq models emit)
 //     endcase finished|fuel
 //     final size <n>                   item counter after the run (main thread, not scheduled)
+//     final buckets <n>                bucket_count() after the run (larger than the initial capacity: a resize ran)
 //     final key <k> <contains> <erase1> <erase2> [<value>]   per key: contains(k), erase(k), erase(k) again
 //     final dup <n>                    number of keys whose second erase succeeded (key present twice)
 //
@@ -91,7 +92,7 @@ namespace c16 {
     // An adapter A provides:
     //   A( vcase::Case const& )                       builds the container from cfg
     //   result op( int tid, long code, long k, long a, long b )      one client operation (tid 7 = main)
-    //   long size()
+    //   long size(), long bucket_count()
     //   static bool is_map
     template <class A>
     void run_case( vcase::Case const& c )
@@ -114,6 +115,7 @@ namespace c16 {
             vcase::print_log( c );
             // monitor (main thread: not scheduled, not logged)
             std::printf( "final size %ld\n", a->size());
+            std::printf( "final buckets %ld\n", a->bucket_count());
             long dup = 0;
             for ( long k = 0; k < nkeys; ++k ) {
                 result f = a->op( 7, A::is_map ? 7 : 8, k, 0, 0 );
